@@ -369,3 +369,19 @@ coll_api!(BoxedLockCollection<CN>, CN);
 coll_api!(RefLockCollection<'static, CN>, CN);
 coll_api!(RetryingLockCollection<CN>, CN);
 coll_api!(Unit, Cont<Leaf>);
+coll_api!(BoxedLockCollection<CL>, CL);
+coll_api!(RefLockCollection<'static, CL>, CL);
+coll_api!(RetryingLockCollection<CL>, CL);
+
+impl TargetApi for Poisonable<BoxedLockCollection<CL>> {
+    poison_api_write!(BoxedLockCollection<CL>);
+    poison_api_read!(BoxedLockCollection<CL>);
+}
+impl TargetApi for Poisonable<RetryingLockCollection<CL>> {
+    poison_api_write!(RetryingLockCollection<CL>);
+    poison_api_read!(RetryingLockCollection<CL>);
+}
+impl TargetApi for Poisonable<Unit> {
+    poison_api_write!(Unit);
+    poison_api_read!(Unit);
+}
